@@ -1,6 +1,7 @@
 /- C14 — Parsers, serializers and the binding context are history-independent.
    Property theorems only; helper lemmas live in Proofs/CtxInv.lean. -/
 import XsdataModel.Proofs.CtxInv
+import XsdataModel.Proofs.CtxMemo
 
 namespace Props.C14
 open Py Xs.Ctx
@@ -211,6 +212,79 @@ def declaredU : Universe :=
 example : allDeclared declaredU ∧
     (∀ c ∈ indexedClasses (pureIndex declaredU 2), buildable declaredU c = true) ∧
     (∀ c < declaredU.classes.length, buildable declaredU c = true ∨ indexKey declaredU c = none) := by
+  decide
+
+
+/-! ## Document level: serialising through a shared context -/
+
+/-- `PA(c=C(x=..))` -/
+def docPA : List Tok := [.enter 0 1, .enter 0 0, .leaf 0, .leave, .leave]
+/-- `PB(c=C(x=..))` -/
+def docPB : List Tok := [.enter 0 2, .enter 0 0, .leaf 0, .leave, .leave]
+
+/-- (finding C14-F1 at document level) serialising `PB` after `PA` through one
+context puts `PA`'s namespace on `C`'s child element. -/
+theorem serialize_counterexample :
+    fresh witnessU w3 (.serialize docPB)
+      = .gotNames ["{urn:b}PB".toList, "{urn:b}c".toList, "{urn:b}x".toList] ∧
+    (step witnessU w3 (run witnessU State.init [(w3, .serialize docPA)]) (.serialize docPB)).2
+      = .gotNames ["{urn:b}PB".toList, "{urn:b}c".toList, "{urn:a}x".toList] := by
+  decide
+
+/-- whereas any number of repetitions of the *same* documents is harmless
+(instance of `history_independent_partial`; the side conditions are decided) -/
+example : histOK witnessU Track.empty
+    [(w3, .serialize docPA), (w3, .serialize docPA), (w3, .build 1 none), (w3, .serialize docPA)] := by
+  decide
+
+/-! ## Memoised helpers -/
+
+/-- **memo_pure**: whatever queries a field has answered before, `match_namespace`
+returns the value of the un-memoised `_match_namespace`. -/
+theorem memo_pure (nss : List Str) (history : List Str) (q : Str) :
+    (matchRun nss none (history ++ [q])).getLast? = some (matchNamespacePure nss q) := by
+  rw [matchRun_spec _ _ (MemoInv.none nss)]
+  simp
+
+/-- all answers of a query sequence against one shared field equal the pure function -/
+theorem memo_pure_all (nss : List Str) (qs : List Str) :
+    matchRun nss none qs = qs.map (matchNamespacePure nss) :=
+  matchRun_spec _ _ (MemoInv.none nss)
+
+/-- **lru_transparent**: a function wrapped in `functools.lru_cache` of any size
+returns, after any sequence of earlier calls (including raising ones and ones
+that caused evictions), exactly what the bare function returns. -/
+theorem lru_transparent {κ ν} [BEq κ] [LawfulBEq κ] [DecidableEq κ] (f : κ → Option ν) (cap : Nat)
+    (ks : List κ) : (lruRun f cap [] ks).map (·.1) = ks.map f :=
+  lruRun_spec cap ks [] (by intro k v h; simp [List.lookup] at h)
+
+/-- in particular for `build_qname` and `split_qname` with the size the code declares -/
+theorem build_qname_lru_transparent (calls : List (List (Option Str))) :
+    (lruRun buildQNameArgs Tables.lruMaxBuildQName [] calls).map (·.1) = calls.map buildQNameArgs :=
+  lru_transparent _ _ _
+
+theorem split_qname_lru_transparent (calls : List Str) :
+    (lruRun splitQNameArgs Tables.lruMaxSplitQName [] calls).map (·.1) = calls.map splitQNameArgs :=
+  lru_transparent _ _ _
+
+/-- **nsmap_not_observed**: the prefix map kept on the parser instance never flows
+into a parse result, and a map passed by the caller is filled from that map and
+the document only; the instance is left untouched in that case. -/
+theorem nsmap_not_observed {Doc R} (decls : Doc → NsMap) (bind : Doc → R) (p p' : ParserInst)
+    (doc : Doc) (arg : Option NsMap) :
+    (parseCall decls bind p doc arg).2.1 = (parseCall decls bind p' doc arg).2.1 ∧
+    (∀ m, parseCall decls bind p doc (some m) = (p, bind doc, some (registerAll m (decls doc)))) := by
+  cases arg <;> exact ⟨rfl, fun _ => rfl⟩
+
+/-- but the instance attribute itself is history dependent (finding C14-F4):
+after a document binding prefix `p` to `urn:a`, a second document binding `p`
+to `urn:b` leaves `parser.ns_map["p"] == "urn:a"`. -/
+theorem recorder_accumulates_counterexample :
+    let d1 : NsMap := [(some "p".toList, "urn:a".toList)]
+    let d2 : NsMap := [(some "p".toList, "urn:b".toList)]
+    let call := parseCall (Doc := NsMap) (R := Unit) id (fun _ => ())
+    (call (call ⟨[]⟩ d1 none).1 d2 none).1.nsMap = [(some "p".toList, "urn:a".toList)] ∧
+    (call ⟨[]⟩ d2 none).1.nsMap = [(some "p".toList, "urn:b".toList)] := by
   decide
 
 end Props.C14
